@@ -107,8 +107,61 @@ Proof.
     destruct (Hdis O (S i) e0 e eq_refl He ltac:(lia)) as [D|D]; unfold site_lo, site_hi in *; lia.
 Qed.
 
+(* ------------------------------------------------------------------ the ONLY places that depend on the shape of C10's definitions / lemma
+   names (Sections.JitReloc: site, site_entry, site_in_bounds, relocate_holder, jit_add_reloc; JitRelocProofs.jit_add_reloc_image;
+   SettleProofs.final_copy_ready): `c10_sites_wf` and `jit_reloc_unfold` below.  Everything else in this file uses only these two. *)
 (* ------------------------------------------------------------------ composition with C10's JitRuntime::_add model *)
 From Verif Require Import Sections.SectionTable Sections.SectionProofs.
+
+Lemma c10_sites_wf (text : section) h off calls :
+  forallb (site_in_bounds text) calls = true -> Z.of_nat (length (sdata text)) = sbsize text ->
+  forall e', In e' (map (site_entry h off) calls) -> site_wf (sdata text) e'.
+Proof.
+  intros Eb Hlen e' He'. apply in_map_iff in He'. destruct He' as (c & <- & Hc).
+  rewrite forallb_forall in Eb. specialize (Eb c Hc). unfold site_in_bounds in Eb.
+  repeat rewrite andb_true_iff in Eb. rewrite ?Z.leb_le, ?Z.ltb_lt in Eb.
+  destruct c; unfold site_wf, site_hi, site_entry, site_pos, site_len, CALL_LEN, ABS_LEN in *; cbn [e_off e_lead e_fmt vsize sfmt ufmt]; lia.
+Qed.
+
+Lemma c10_site_pos_nonneg (text : section) calls c : forallb (site_in_bounds text) calls = true -> In c calls -> 0 <= site_pos c.
+Proof.
+  intros Eb Hc. rewrite forallb_forall in Eb. specialize (Eb c Hc). unfold site_in_bounds in Eb.
+  repeat rewrite andb_true_iff in Eb. rewrite ?Z.leb_le, ?Z.ltb_lt in Eb. lia.
+Qed.
+
+(* everything relocate_holder did, as facts *)
+Lemma jit_reloc_unfold st calls base fill final img h2 :
+  wf_holder (jh st) -> data_len_ok (jh st) ->
+  (forall h1, flatten (jh st) = (EOk, h1) -> NoDup (map sid h1) /\ (forall s, In s h1 -> 0 <= sid s)) ->
+  jit_add_reloc st calls base fill = (JOk, final, img, h2) ->
+  exists h1 text t atoff reserved last r,
+    flatten (jh st) = (EOk, h1) /\ by_id h1 0 = Some text /\ In text h1 /\ sid text = 0 /\
+    Z.of_nat (length (sdata text)) = sbsize text /\
+    forallb (site_in_bounds text) calls = true /\
+    (match jtab st with
+     | Some t0 => match by_id h1 t0 with Some ts => (t0, soff ts, svsize ts, is_last h1 t0) | None => (-1, 0, 0, false) end
+     | None => (-1, 0, 0, false) end) = (t, atoff, reserved, last) /\
+    relocate base REG_SIZE atoff reserved last (map (site_entry h1 (soff text)) calls) = inl r /\
+    rr_table_size r <= reserved /\
+    h2 = map (fun s => if sid s =? t then set_sizes s (rr_table_size r) (if last then rr_table_size r else svsize s) (table_bytes (rr_table r))
+                       else if sid s =? 0 then set_data s (patch_all (sdata s) (map (site_entry h1 (soff text)) calls) (rr_outs r)) else s) h1 /\
+    (forall s, In s h2 -> forall k, 0 <= k < sbsize s -> soff s + k < final -> cell (flat img) (soff s + k) = cell (sdata s) k).
+Proof.
+  intros Hwf Hdl Hid E.
+  destruct (jit_add_reloc_image st calls base fill final img h2 Hwf Hdl Hid E) as (h1 & red & Ef & Er & Efin & Hoff & Hcells & _).
+  destruct (final_copy_ready (jh st) h1 Hwf Hdl Ef) as (Hd & _).
+  unfold relocate_holder in Er.
+  destruct (by_id h1 0) as [text|] eqn:Et; [|discriminate].
+  destruct (forallb (site_in_bounds text) calls) eqn:Eb; cbn [negb] in Er; [|discriminate].
+  destruct (match jtab st with
+            | Some t0 => match by_id h1 t0 with Some ts => (t0, soff ts, svsize ts, is_last h1 t0) | None => (-1, 0, 0, false) end
+            | None => (-1, 0, 0, false) end) as [[[t atoff] reserved] last] eqn:Esel.
+  destruct (relocate base REG_SIZE atoff reserved last (map (site_entry h1 (soff text)) calls)) as [r|x] eqn:Erel; [|discriminate].
+  destruct (Z.ltb_spec reserved (rr_table_size r)) as [|Hfit]; [discriminate|]. injection Er as Eh2 _.
+  destruct (by_id_in _ _ _ Et) as (Esid & Hin).
+  rewrite Forall_forall in Hd. destruct (Hd text Hin) as (Hlen & _).
+  exists h1, text, t, atoff, reserved, last, r. repeat split; auto.
+Qed.
 
 (* the bytes JitRuntime::_add installs at the i-th relocation site when it is a `call <absolute>`: the relocated rel32 word and, when
    the call was routed through the address table, FF 15 in front of it (otherwise the emitted 40 E8) *)
@@ -129,22 +182,11 @@ Theorem installed_call_site st calls base fill final img h2 i pos target :
        match o_rewrite o with Some (b0, b1) => if j =? 0 then b0 else b1 | None => cell (sdata text) (pos + j) end).
 Proof.
   intros Hwf Hdl Hid Htab Hcd E Hi.
-  destruct (jit_add_reloc_image st calls base fill final img h2 Hwf Hdl Hid E) as (h1 & red & Ef & Er & Efin & Hoff & Hcells & _).
-  destruct (Hid h1 Ef) as (Hnd & Hpos).
-  destruct (final_copy_ready (jh st) h1 Hwf Hdl Ef) as (Hd & _).
-  unfold relocate_holder in Er.
-  destruct (by_id h1 0) as [text|] eqn:Et; [|discriminate].
-  destruct (forallb (site_in_bounds text) calls) eqn:Eb; cbn [negb] in Er; [|discriminate].
+  destruct (jit_reloc_unfold st calls base fill final img h2 Hwf Hdl Hid E)
+    as (h1 & text & t & atoff & reserved & last & r & Ef & Et & Hin & Esid & Hlen & Eb & Esel & Erel & Hfit & Eh2 & Hcells).
   set (es := map (site_entry h1 (soff text)) calls) in *.
-  destruct (match jtab st with
-            | Some t0 => match by_id h1 t0 with Some ts => (t0, soff ts, svsize ts, is_last h1 t0) | None => (-1, 0, 0, false) end
-            | None => (-1, 0, 0, false) end) as [[[t atoff] reserved] last] eqn:Esel.
-  destruct (relocate base REG_SIZE atoff reserved last es) as [r|x] eqn:Erel; [|discriminate].
-  destruct (reserved <? rr_table_size r); [discriminate|]. injection Er as Eh2 _.
   assert (Ht0 : t <> 0).
   { destruct (jtab st) as [t0|]; [destruct (by_id h1 t0); injection Esel as <- _ _ _; [congruence|lia]|injection Esel as <- _ _ _; lia]. }
-  destruct (by_id_in _ _ _ Et) as (Esid & Hin).
-  rewrite Forall_forall in Hd. destruct (Hd text Hin) as (Hlen & _).
   destruct (relocate_table _ _ _ _ _ _ _ Erel) as (_ & _ & _ & Hlo).
   assert (Hei : nth_error es i = Some (site_entry h1 (soff text) (SCall pos target))) by (unfold es; rewrite nth_error_map, Hi; reflexivity).
   assert (Hoi : exists o, nth_error (rr_outs r) i = Some o).
@@ -153,20 +195,14 @@ Proof.
   destruct Hoi as (o & Ho).
   set (text2 := set_data text (patch_all (sdata text) es (rr_outs r))).
   assert (Hin2 : In text2 h2).
-  { rewrite <- Eh2. apply in_map_iff. exists text. split; [|exact Hin].
+  { rewrite Eh2. apply in_map_iff. exists text. split; [|exact Hin].
     replace (sid text =? t) with false by (symmetry; apply Z.eqb_neq; lia).
     replace (sid text =? 0) with true by (symmetry; apply Z.eqb_eq; exact Esid). reflexivity. }
-  assert (Hwfs : forall e', In e' es -> site_wf (sdata text) e').
-  { intros e' He'. unfold es in He'. apply in_map_iff in He'. destruct He' as (c & <- & Hc).
-    rewrite forallb_forall in Eb. specialize (Eb c Hc). unfold site_in_bounds in Eb.
-    apply andb_true_iff in Eb. destruct Eb as (Eb1 & E3). apply andb_true_iff in Eb1. destruct Eb1 as (E1 & E2).
-    apply Z.leb_le in E1, E3. apply Z.ltb_lt in E2.
-    destruct c; unfold site_wf, site_hi, site_entry, site_pos, site_len, CALL_LEN, ABS_LEN in *; cbn [e_off e_lead e_fmt vsize sfmt ufmt]; lia. }
+  assert (Hwfs : forall e', In e' es -> site_wf (sdata text) e') by (apply c10_sites_wf; assumption).
   destruct (patch_all_site es (rr_outs r) (sdata text) i _ o Hwfs (Hcd _ _) Hei Ho) as (PW & PO).
   cbn [site_entry e_off e_lead e_fmt vsize sfmt fst snd] in PW, PO.
   destruct (Hwfs _ (nth_error_In _ _ Hei)) as (S2 & _ & S3). unfold site_hi in S3. cbn [site_entry e_off e_lead e_fmt vsize sfmt fst snd] in S2, S3.
-  rewrite forallb_forall in Eb. pose proof (Eb _ (nth_error_In _ _ Hi)) as Ebi. unfold site_in_bounds, site_pos in Ebi.
-  apply andb_true_iff in Ebi. destruct Ebi as (Ebi & _). apply andb_true_iff in Ebi. destruct Ebi as (Ep0 & _). apply Z.leb_le in Ep0.
+  assert (Ep0 : 0 <= pos) by exact (c10_site_pos_nonneg text calls (SCall pos target) Eb (nth_error_In _ _ Hi)).
   exists h1, text, atoff, reserved, last, r, o. repeat split; auto.
   - intros k Hk Hf. specialize (Hcells text2 Hin2 (pos + 2 + k)).
     assert (Hb2 : sbsize text2 = sbsize text) by reflexivity. assert (Ho2 : soff text2 = soff text) by reflexivity.
@@ -213,40 +249,6 @@ Proof.
   - rewrite app_nth2 by (rewrite le_bytes_length; lia). rewrite le_bytes_length.
     replace (Z.to_nat (8 * Z.of_nat (S i) + k) - 8)%nat with (Z.to_nat (8 * Z.of_nat i + k)) by lia.
     apply (IH i a k Hi Hk).
-Qed.
-
-(* everything relocate_holder did, as facts *)
-Lemma jit_reloc_unfold st calls base fill final img h2 :
-  wf_holder (jh st) -> data_len_ok (jh st) ->
-  (forall h1, flatten (jh st) = (EOk, h1) -> NoDup (map sid h1) /\ (forall s, In s h1 -> 0 <= sid s)) ->
-  jit_add_reloc st calls base fill = (JOk, final, img, h2) ->
-  exists h1 text t atoff reserved last r,
-    flatten (jh st) = (EOk, h1) /\ by_id h1 0 = Some text /\ In text h1 /\ sid text = 0 /\
-    Z.of_nat (length (sdata text)) = sbsize text /\
-    forallb (site_in_bounds text) calls = true /\
-    (match jtab st with
-     | Some t0 => match by_id h1 t0 with Some ts => (t0, soff ts, svsize ts, is_last h1 t0) | None => (-1, 0, 0, false) end
-     | None => (-1, 0, 0, false) end) = (t, atoff, reserved, last) /\
-    relocate base REG_SIZE atoff reserved last (map (site_entry h1 (soff text)) calls) = inl r /\
-    rr_table_size r <= reserved /\
-    h2 = map (fun s => if sid s =? t then set_sizes s (rr_table_size r) (if last then rr_table_size r else svsize s) (table_bytes (rr_table r))
-                       else if sid s =? 0 then set_data s (patch_all (sdata s) (map (site_entry h1 (soff text)) calls) (rr_outs r)) else s) h1 /\
-    (forall s, In s h2 -> forall k, 0 <= k < sbsize s -> soff s + k < final -> cell (flat img) (soff s + k) = cell (sdata s) k).
-Proof.
-  intros Hwf Hdl Hid E.
-  destruct (jit_add_reloc_image st calls base fill final img h2 Hwf Hdl Hid E) as (h1 & red & Ef & Er & Efin & Hoff & Hcells & _).
-  destruct (final_copy_ready (jh st) h1 Hwf Hdl Ef) as (Hd & _).
-  unfold relocate_holder in Er.
-  destruct (by_id h1 0) as [text|] eqn:Et; [|discriminate].
-  destruct (forallb (site_in_bounds text) calls) eqn:Eb; cbn [negb] in Er; [|discriminate].
-  destruct (match jtab st with
-            | Some t0 => match by_id h1 t0 with Some ts => (t0, soff ts, svsize ts, is_last h1 t0) | None => (-1, 0, 0, false) end
-            | None => (-1, 0, 0, false) end) as [[[t atoff] reserved] last] eqn:Esel.
-  destruct (relocate base REG_SIZE atoff reserved last (map (site_entry h1 (soff text)) calls)) as [r|x] eqn:Erel; [|discriminate].
-  destruct (Z.ltb_spec reserved (rr_table_size r)) as [|Hfit]; [discriminate|]. injection Er as Eh2 _.
-  destruct (by_id_in _ _ _ Et) as (Esid & Hin).
-  rewrite Forall_forall in Hd. destruct (Hd text Hin) as (Hlen & _).
-  exists h1, text, t, atoff, reserved, last, r. repeat split; auto.
 Qed.
 
 (* the installed address table: slot i of the relocated table is installed, little endian, at table offset + 8 i *)
@@ -321,12 +323,7 @@ Proof.
   { rewrite Eh2. apply in_map_iff. exists text. split; [|exact Hin].
     replace (sid text =? t) with false by (symmetry; apply Z.eqb_neq; lia).
     replace (sid text =? 0) with true by (symmetry; apply Z.eqb_eq; exact Esid). reflexivity. }
-  assert (Hwfs : forall e', In e' es -> site_wf (sdata text) e').
-  { intros e' He'. unfold es in He'. apply in_map_iff in He'. destruct He' as (c & <- & Hc).
-    rewrite forallb_forall in Eb. specialize (Eb c Hc). unfold site_in_bounds in Eb.
-    apply andb_true_iff in Eb. destruct Eb as (Eb1 & E3). apply andb_true_iff in Eb1. destruct Eb1 as (E1 & E2).
-    apply Z.leb_le in E1, E3. apply Z.ltb_lt in E2.
-    destruct c; unfold site_wf, site_hi, site_entry, site_pos, site_len, CALL_LEN, ABS_LEN in *; cbn [e_off e_lead e_fmt vsize sfmt ufmt]; lia. }
+  assert (Hwfs : forall e', In e' es -> site_wf (sdata text) e') by (apply c10_sites_wf; assumption).
   destruct (patch_all_site es (rr_outs r) (sdata text) i _ o Hwfs (Hcd _ _) Hei Ho) as (PW & _).
   cbn [site_entry e_off e_lead e_fmt vsize ufmt] in PW.
   destruct (Hwfs _ (nth_error_In _ _ Hei)) as (S2 & _ & S3). unfold site_hi in S3. cbn [site_entry e_off e_lead e_fmt vsize ufmt] in S2, S3.
